@@ -59,6 +59,16 @@ check("C15", "model_checking",
       "Trusted: annotation parser, TLC. Monotone = sums of coef*term with coef>=0.",
       "TLA+ theorems (TLC) + forced-face replay bracketed by real min/max-mode runs + TLC trace validation of expressions", "DESIGN.md section 4 C15")
 
+check("C08", "model_checking",
+      "spec/ByteVM.tla is the VM at the level of control and stack shape (one action per opcode, every conditional jump both ways, "
+      "saved block heights, dice/wod/dc/annotation state); TLC explores ALL paths of every listing the real compiler emits (main code and "
+      "nested function/computed bodies, obtained through the read-only accessor) for the repository corpus, generated programs and "
+      "valid-prefix-plus-broken-tail inputs, reporting underflow, out-of-bounds or unpatched jumps, a pc reached with two block depths, "
+      "and roll/annotation state used before set-up.  The opcode table is validated on every run against dispatch steps recorded from the "
+      "real VM (hook H1, TLC trace validation); if an opcode's observed stack effect differs, the all-paths check is re-run with the observed effect.",
+      "Trusted: TLC, the accessor's listing. Heights capped at 40 (sound for underflow). Inputs are sampled; paths per input are exhaustive.",
+      "TLA+ all-paths model checking (TLC) of real compiler output + TLC trace validation of recorded VM dispatch steps", "DESIGN.md section 4 C08")
+
 NOT_YET = "check under construction in this build phase (planned in DESIGN.md section 4); not yet claimed"
 
 m = {
